@@ -22,13 +22,13 @@ func (p *DecisionMakingParams) Spec_AllAlternatives() []AlternativeWithCriteria 
 }
 
 func (dm *DecisionMaker) Spec_Alternative(id Alternative) AlternativeWithCriteria {
-	return FetchAlternative(&dm.KnownAlternatives, id)
+	return Spec_FetchAlternative(&dm.KnownAlternatives, id)
 }
 
 func Spec_UpdateAlternatives(old *[]AlternativeWithCriteria, newOnes *[]AlternativeWithCriteria) *[]AlternativeWithCriteria {
 	res := make([]AlternativeWithCriteria, len(*old))
 	for i, a := range *old {
-		res[i] = FetchAlternative(newOnes, a.Id)
+		res[i] = Spec_FetchAlternative(newOnes, a.Id)
 	}
 	return &res
 }
@@ -43,13 +43,13 @@ func Spec_FetchAlternative(a *[]AlternativeWithCriteria, id Alternative) Alterna
 }
 
 func (dm *DecisionMaker) Spec_AlternativesToConsider() *[]AlternativeWithCriteria {
-	return FetchAlternatives(&dm.KnownAlternatives, &dm.ChoseToMake)
+	return Spec_FetchAlternatives(&dm.KnownAlternatives, &dm.ChoseToMake)
 }
 
 func Spec_FetchAlternatives(a *[]AlternativeWithCriteria, ids *[]Alternative) *[]AlternativeWithCriteria {
 	results := make([]AlternativeWithCriteria, len(*ids))
 	for i, id := range *ids {
-		results[i] = FetchAlternative(a, id)
+		results[i] = Spec_FetchAlternative(a, id)
 	}
 	return &results
 }
@@ -60,15 +60,15 @@ func (dm *DecisionMaker) Spec_MakeDecision(
 	availableBiases *BiasMap,
 	biasApplyProbGenerator utils.SeededValueGenerator,
 ) *DecisionMakerChoice {
-	if IsStringBlank(&dm.PreferenceFunction) {
+	if Spec_IsStringBlank(&dm.PreferenceFunction) {
 		panic(fmt.Errorf("preference function must not be empty"))
 	}
-	dm.Criteria.Validate()
-	dm.validateAlternatives()
-	preferenceFunction := preferenceFunctions.Fetch(dm.PreferenceFunction)
-	params := dm.prepareParams(preferenceFunction)
-	chosenBiases := ChooseBiases(availableBiases, &dm.Biases)
-	processedParams, biasesProps := dm.processBiases(chosenBiases, params, &biasListeners, biasApplyProbGenerator)
+	dm.Criteria.Spec_Validate()
+	dm.Spec_validateAlternatives()
+	preferenceFunction := preferenceFunctions.Spec_Fetch(dm.PreferenceFunction)
+	params := dm.Spec_prepareParams(preferenceFunction)
+	chosenBiases := Spec_ChooseBiases(availableBiases, &dm.Biases)
+	processedParams, biasesProps := dm.Spec_processBiases(chosenBiases, params, &biasListeners, biasApplyProbGenerator)
 	res := (*preferenceFunction).Evaluate(processedParams)
 	return &DecisionMakerChoice{*res, *biasesProps}
 }
@@ -86,8 +86,8 @@ func (dm *DecisionMaker) Spec_validateAlternatives() {
 
 func (dm *DecisionMaker) Spec_prepareParams(preferenceFunction *PreferenceFunction) *DecisionMakingParams {
 	return &DecisionMakingParams{
-		NotConsideredAlternatives: *dm.NotConsideredAlternatives(),
-		ConsideredAlternatives:    *dm.AlternativesToConsider(),
+		NotConsideredAlternatives: *dm.Spec_NotConsideredAlternatives(),
+		ConsideredAlternatives:    *dm.Spec_AlternativesToConsider(),
 		Criteria:                  dm.Criteria,
 		MethodParameters:          (*preferenceFunction).ParseParams(dm),
 	}
@@ -96,7 +96,7 @@ func (dm *DecisionMaker) Spec_prepareParams(preferenceFunction *PreferenceFuncti
 func (dm *DecisionMaker) Spec_NotConsideredAlternatives() *[]AlternativeWithCriteria {
 	var result []AlternativeWithCriteria
 	for _, a := range dm.KnownAlternatives {
-		if !utils.ContainsString(&dm.ChoseToMake, &a.Id) {
+		if !utils.Spec_ContainsString(&dm.ChoseToMake, &a.Id) {
 			result = append(result, a)
 		}
 	}
@@ -115,16 +115,16 @@ func (dm *DecisionMaker) Spec_processBiases(
 	if biasesToProcessCount == 0 {
 		return current, &result
 	}
-	listener := listeners.Fetch(dm.PreferenceFunction)
+	listener := listeners.Spec_Fetch(dm.PreferenceFunction)
 	generator := biasApplyProbGenerator(dm.BiasApplyRandomSeed)
 	for i, h := range *biases {
 		// check for >=1 omitted to keep results independence when other changes
 		if h.Props.ApplyProbability > generator() {
 			res := (*h.Bias).Apply(params, current, &h.Props.Props, listener)
 			current = res.DMP
-			result[i] = *UpdateBiasesProps(h.Props, res.Props)
+			result[i] = *Spec_UpdateBiasesProps(h.Props, res.Props)
 		} else {
-			result[i] = *UpdateBiasesProps(h.Props, nil)
+			result[i] = *Spec_UpdateBiasesProps(h.Props, nil)
 		}
 	}
 	return current, &result
